@@ -102,7 +102,12 @@ def main(argv=None):
             by = summ[uname] = collections.OrderedDict((k, v) for k, v in by.items() if k.startswith(a.prop + "."))
         assumed |= set(a_["assumed"])
         for fid, info in a_["infos"].items():
-            fn_rows[fid] = dict(info, paths=fn_rows.get(fid, {}).get("paths", 0) + len(a_["paths"]))
+            prev = fn_rows.get(fid, {})
+            hit = set(prev.get("arms_reached", ()))
+            if d.expect != "canary":
+                pre = fid + "@"
+                hit |= {m[len(pre):] for p in a_["paths"] for m in p.get("arms", ()) if m.startswith(pre)}
+            fn_rows[fid] = dict(info, paths=prev.get("paths", 0) + len(a_["paths"]), arms_reached=sorted(hit))
         if a_["errors"]:
             faults.append(f"{uname}: {len(a_['errors'])} engine error(s): {a_['errors'][0].splitlines()[0]}")
             if a.verbose:
